@@ -1,5 +1,37 @@
-"""C08 - Rendering is total and allocation-free on display-scale inputs  (metadata; generators live here and/or in props/C08_*.py parts)"""
-CLAIMED = False   # set True by the owner once ./check C08 passes with real theorems
+"""C08 - Rendering is total and allocation-free on display-scale inputs  (metadata + implementation-side search)"""
+from common import *
+
+CLAIMED = False  # until theorem parts are merged
 LEVEL = 'proof'
 LEVEL_TEXT = 'TODO'
 LEVEL_NOTE = 'TODO'
+RULE = ('search p_total: every drawable family x boundary-biased display-scale values (coordinates and sizes from '
+        '{0,1,2,63..65,255..257,240,320,480,1023,1024} and negatives, stroke widths {0,1,2,3,63..65,127,128}, line heights up to 1024 px / 400 %), '
+        'in a build with overflow checks and debug assertions, counting global allocator, step budget on every iterator.')
+
+B = [0, 1, 2, 63, 64, 65, 255, 256, 257, 240, 320, 480, 1023, 1024]
+W = [0, 1, 2, 3, 63, 64, 65, 127, 128]
+
+
+def cb(rng):
+    v = rng.choice(B) if rng.random() < 0.8 else rng.randrange(0, 1025)
+    return v if rng.random() < 0.6 else -v
+
+
+def eb(rng):
+    return rng.choice(B) if rng.random() < 0.8 else rng.randrange(0, 1025)
+
+
+def search(tier, rng):
+    n = 1500 if tier == 'quick' else 40000
+    yield 'p_total ellipse 0 0 320 240 S 1 1 3 1'
+    yield 'p_total line 0 0 1000 700 S 0 1 30 1'
+    for k in range(n):
+        fam = FAMILIES[k % len(FAMILIES)]
+        small = rng.random() < 0.35
+        e = (lambda r: r.choice([0, 1, 2, 3, 63, 64, 65])) if small else eb
+        case = zoo_case(rng, fam, c=cb, e=e, maxw=0, absolute=True)
+        if ' S ' in case:
+            head, _ = case.rsplit(' S ', 1)
+            case = head + ' ' + J('S', rng.randrange(2), rng.randrange(2), rng.choice(W), rng.randrange(3))
+        yield 'p_total ' + case
